@@ -427,4 +427,26 @@ Proof.
       try rewrite (none_active_spec _ _ Hna _ _ Ht0 (I1 _ _ Ht0));
       destruct (exp_active th0); destruct (async_active th0); destruct (t_late th0);
       cbn in *; try reflexivity; try discriminate; try exact T0 ]; fail).
+  (* the core after a send: the sender is active, so inEvents is open *)
+  all: try (
+    assert (Hic : in_closed (co s) = false) by
+      (destruct (in_closed (co s)) eqn:E; [|reflexivity]; exfalso; apply K8 in E;
+       pose proof (K1 _ _ Hth) as Tt; unfold tinv3, exp_active, async_active in Tt; rewrite Hpc in Tt;
+       destruct (6 <=? stage s) eqn:E6; destruct (9 <=? stage s) eqn:E9; cbn in Tt; try discriminate Tt;
+       try apply Nat.leb_gt in E6; try apply Nat.leb_gt in E9; lia);
+    cbn [cstep] in Hcs; rewrite Hic in Hcs; destruct (in_ev (co s)); [discriminate Hcs|]; inv_some; csimp;
+    first [assumption | (intros; apply K10; assumption)]; fail).
+  (* close(closing) / close(inEvents) by the runner *)
+  all: try (
+    cbn [cstep] in Hcs;
+    first
+    [ destruct (closing (co s)) eqn:E; [apply K7 in E; lia|]
+    | destruct (in_closed (co s)) eqn:E; [apply K8 in E; lia|] ];
+    inv_some; csimp;
+    first [ assumption
+          | (split; intro Hx; first [lia | reflexivity | (apply K7; lia) | (apply K7 in Hx; lia) | (apply K8 in Hx; lia) | (apply K8; lia) | congruence]) ]; fail).
+  (* core labels *)
+  all: try (
+    destruct (cstep_ok_frame _ _ _ (label_ok_14 _ _ Hok) Hcs) as (F1 & F2 & F3 & _);
+    rewrite ?F1, ?F2, ?F3; first [assumption | (intros Hf Hx; eapply ddone_stable; [apply K10; assumption|exact Hcs])]; fail).
 Admitted.
